@@ -61,6 +61,7 @@ SIG = {
     "target_file_name": (["str", "opt:str", "list:scalar", "opt:str"], "w_str (Cli.target_file_name a0 a1 a2 a3)"),
     "relative_path": (["list:str", "list:str"], "w_list w_str (Paths.relative_path a0 a1)"),
     "norm_join": (["list:str", "list:str"], "w_list w_str (Paths.norm_join a0 a1)"),
+    "sd_include": (["sdict", "int", "list:str", "list:str", "str"], "w_res w_sd_count (Paths.sd_include a0 a1 a2 a3 a4)"),
     "common_prefix_all": (["list:list:str"], "w_list w_str (Paths.common_prefix_all a0)"),
     "write_text": (["bool", "str", "opt:str", "bool", "kvs"], "w_res w_str (Reader.write_text a0 a1 a2 a3 a4)"),
     "xml_parse": (["bool", "int", "elem"],
